@@ -296,6 +296,37 @@ func checkC15(c *Check) {
 			how := "returned"
 			if len(fl.Sent) > 0 && len(fl.Returned) == 0 {
 				how = "sent on an error channel"
+				// handed off, not returned: every path from the failure edge to
+				// the end of the function passes the hand-off (in this function
+				// or in the helper it calls with the error)
+				if nn, _, _ := errEdge(ev); nn != nil && nn.Parent() == fn {
+					isHandoff := func(x ssa.Instruction) bool {
+						for _, s := range fl.Sent {
+							if s == x {
+								return true
+							}
+						}
+						// a call that passes the error (or a value built from it) on to a helper that hands it off
+						if ci, ok := x.(ssa.CallInstruction); ok {
+							if sc := staticCallee(ci.Common()); sc != nil && InRepo(sc) {
+								for _, a := range ci.Common().Args {
+									if fl.seen[a] {
+										for _, s := range fl.Sent {
+											if s.Parent() == sc {
+												return true
+											}
+										}
+									}
+								}
+							}
+						}
+						return false
+					}
+					if miss := blockReachesInstr(nn, isReturn, isHandoff); miss != nil {
+						c.Bad("no-error-dropped", name, pos, "on the failure edge a path reaches the end of the function ("+p.InstrPos(miss)+") without handing the error over: under that condition the failure is dropped silently and the processor keeps running")
+						return
+					}
+				}
 			}
 			c.OK("no-error-dropped", name, pos, "the error flows to a "+how+" value")
 		})
